@@ -288,3 +288,12 @@ def C13_sampleDoc : SchemaDoc :=
          interfaces := [], fields := [], types := [], enumValues := [], pos := Pos.zero, builtIn := false }] }
 
 example : FormattableSchema C13_sampleDoc := by decide
+
+/-- FINDING (pathological configuration): the hypothesis "indentation of spaces and tabs" cannot be
+    widened to all white space.  With `WithIndent("\n")` (or `"\r"`) an indented two-line description
+    `a⏎b` is written with an empty line between its lines and comes back as `a⏎⏎b`; with
+    `WithIndent(",")` the comma becomes part of the description.  (Go: `rtsd 0a,0,0,0` on
+    `type T { """⏎a⏎b⏎""" f: Int }` answers `tree-differs:DF-FL`; `09` and `2020` answer `ok`.) -/
+theorem C13_description_newline_indent_counterexample :
+    blockStringValue (descBody [10] [97, 10, 98]) = [97, 10, 10, 98] ∧
+    blockStringValue (descBody [44] [101]) = [44, 101] := by decide
